@@ -21,7 +21,7 @@ import gen_designs as G, dump_ir as D
 OBLIGATIONS = [
     'C15.parseHex_hexUpper', 'C15.decStr_bit', 'C15.encLoop_eq_enc', 'C15.decodeBody_enc',
     'C15.wavedrom_roundtrip', 'C15.wavedrom_roundtrip_wide', 'C15.wavedrom_span', 'C15.render_injective',
-    'C15.init_inv', 'C15.init_wires_mem', 'C15.init_raises_iff', 'C15.init_cycles_zero',
+    'C15.init_inv', 'C15.init_by_identity', 'C15.init_wires_mem', 'C15.init_raises_iff', 'C15.init_cycles_zero',
     'C15.inv_clock', 'C15.inv_clear', 'C15.inv_run', 'C15.no_raise',
     'C15.samples_clock', 'C15.samples_clear', 'C15.capture_model', 'C15.clear_resets', 'C15.alias_share',
     'C15.getWavedrom_rows', 'C15.getWavedrom_decodes', 'C15.getWavedrom_span', 'C15.getWavedrom_clk',
